@@ -8,13 +8,14 @@ SHARDMAPS = {"Shard1": [1], "Shard11": [1, 1], "Shard12": [1, 2], "Shard111": [1
 
 BASE = dict(NKeys=2, NClients=2, ShardOf="<- Shard11", MaxVer=3, MaxChunks=2, Backend="memory", Dev=set(),
             MaxHandles=2, MaxObj=6, InitLimit=100, Limits={100}, MemCap=100, TickMs=170, Weight=0,
-            FailStores=True, Janitor=False, UseClock=False, Blocking=True)
+            FailStores=True, Janitor=False, UseClock=False, Blocking=True,
+            UpdVals={True, False}, Deletes=True)
 
 
-def fam(name, nf, depth, chunk=64, lru=False, shards=None, **over):
+def fam(name, nf, depth, chunk=64, lru=False, shards=None, bias=True, **over):
     c = dict(BASE)
     c.update(over)
-    return dict(name=name, consts=c, nf=nf, depth=depth, chunk=chunk, lru=lru, shards=shards)
+    return dict(name=name, consts=c, nf=nf, depth=depth, chunk=chunk, lru=lru, shards=shards, bias=bias)
 
 
 # category -> property
@@ -84,7 +85,7 @@ def consts_of(f):
 def run_family(f, num, seed, keep_dir=None):
     """simulate -> replay on the real cache -> validate. Returns a result dict."""
     consts = consts_of(f)
-    gen_cfg = vlib.cfg_text(dict(consts, Depth=f["depth"], NF="<- " + f["nf"]), spec="GenSpec", invariants=["PrintHist"])
+    gen_cfg = vlib.cfg_text(dict(consts, Depth=f["depth"], NF="<- " + f["nf"], Bias=f["bias"]), spec="GenSpec", invariants=["PrintHist"])
     hists = vlib.tlc_simulate("CacheStoreGen", gen_cfg, num, f["depth"], seed)
     return replay_and_validate(f, hists, keep_dir)
 
@@ -111,7 +112,8 @@ def replay_and_validate(f, hists, keep_dir=None, inp=None):
         tdrv = time.time() - t0
         if rc != 0:
             raise vlib.Inconclusive("cachedrv exited %s: %s" % (rc, err[-2000:]))
-        tr_cfg = vlib.cfg_text(dict(consts, TraceFile="trace.ndjson"), spec="TraceSpec", postcondition="Report")
+        # (MaxVer only bounds the generator; a real run may consume more versions, e.g. after forced aborts)
+        tr_cfg = vlib.cfg_text(dict(consts, MaxVer=99, TraceFile="trace.ndjson"), spec="TraceSpec", postcondition="Report")
         r = vlib.tlc_validate("CacheStoreTrace", tr_cfg, os.path.join(d, "trace.ndjson"), timeout=1800)
         lines = [json.loads(x) for x in open(os.path.join(d, "trace.ndjson"))]
         res = {"family": f["name"], "behaviours": len(inp["behaviours"]), "lines": r["total"], "consumed": r["consumed"],
